@@ -15,8 +15,8 @@ var c04Mains = []struct{ name string }{{"scalar"}, {"list"}, {"reduce"}}
 var c04Adds = []struct{ name, sym string }{{"vanilla", ""}, {"lonely", "&"}, {"thoughtful", "~"}, {"strict", "="}}
 var c04MainSym = map[string]string{"scalar": ".", "list": "@", "reduce": "$"}
 
-const c04Prelude = `E := {m: m{|a| return nil if self.b == 'n; raise self.k.new("boom") if self.b == 'r; self.id * 10 + a}}
-Acc := {t: 0, m: m{|e, a| return nil if e.b == 'n; raise e.k.new("boom") if e.b == 'r; self.bear({t: self.t * 10 + e.id + a})}}
+const c04Prelude = `E := {m: m{|a, b, c| return nil if self.b == 'n; raise self.k.new("boom") if self.b == 'r; self.id * 10 + a + b + c}}
+Acc := {t: 0, m: m{|e, a, b, c| return nil if e.b == 'n; raise e.k.new("boom") if e.b == 'r; self.bear({t: self.t * 10 + e.id + a + b + c})}}
 `
 
 // behaviours that raise, by error kind (StopIterErr is the iterator protocol's own signal)
@@ -106,8 +106,9 @@ func genC04(c *Ctx) {
 		}
 		argSrc, argList := "", ""
 		if arg != "-" {
-			argSrc = "(" + arg + ")"
-			argList = ", " + arg
+			as := strings.Replace(arg, "+", ", ", -1) // "5+1+2" stands for the three arguments 5, 1, 2
+			argSrc = "(" + as + ")"
+			argList = ", " + as
 		}
 		chain := addSym + c04MainSym[main]
 		recv := "es"
@@ -180,8 +181,11 @@ func genC04(c *Ctx) {
 				for ci, carg := range cargs {
 					// the argument variant alternates deterministically so that both are covered for every context
 					arg := "5"
-					if (ti+ci)%3 == 0 {
+					switch (ti + ci) % 4 {
+					case 0:
 						arg = "-"
+					case 1:
+						arg = "5+1+2" // three arguments: the argument list is shared by all per-element calls of a list chain
 					}
 					run(m.name, a.name, a.sym, tbl, carg, arg, "exhaustive")
 				}
@@ -211,7 +215,7 @@ func genC04(c *Ctx) {
 		} else {
 			carg = c.Rng.Pick([]string{"-", "[]", "[7]"})
 		}
-		run(m.name, a.name, a.sym, tbl, carg, c.Rng.Pick([]string{"5", "-", "2"}), "random")
+		run(m.name, a.name, a.sym, tbl, carg, c.Rng.Pick([]string{"5", "-", "2", "5+1+2", "1+2", "3+0+0"}), "random")
 	}
 
 	// other receiver kinds: the three forms must agree with each other and with the array of the same elements
